@@ -31,7 +31,8 @@ def rule_make_when_absent(chk, rid):
         kp = params(fn)[1]
         mk = [c for c in calls_in(fn, tail="make") if call_recv(c) == "self"]
         if not mk:
-            raise AnalysisError(f"{cn}.get_bytes: make call not found")
+            chk.ob(rid, f"{ci.qual}.get_bytes", False, "get_bytes never makes a declared key: recipes do not materialise on demand", fn, m, key="guard")
+            continue
         lits = dominating_literals(cfg, cfg.node_of(mk[0]))
         ok = any(txt == f"self.substore.contains({kp})" and pol is False for _, txt, pol, _ in lits)
         chk.ob(rid, f"{ci.qual}.get_bytes", ok, "make(key) runs only when the sub-store lacks the key" if ok else
@@ -205,8 +206,7 @@ def rule_every_exit_materialises(chk, rid):
     for r in cfg.returns():
         if not cfg.is_reachable(r):
             continue
-        lits = dominating_literals(cfg, r)
-        if any(txt == "self.query is None" and pol is False for _, txt, pol, _ in lits):
+        if ev.is_delegation_exit(r):
             continue
         n += 1
         ok = cfg.set_dominates(ss, r)
